@@ -68,8 +68,10 @@ def run(res):
     cases = []
     n = 0
     for (sname, text), use_o, use_e, use_v, loc in itertools.product(SOURCES.items(), (False, True), (False, True), (False, True),
-                                                                     ("writable", "missing-dir", "is-a-directory", "overwrite", "write-fails")):
+                                                                     ("writable", "missing-dir", "is-a-directory", "overwrite", "write-fails", "o-bad-e-good", "o-good-e-bad")):
         if loc in ("missing-dir", "is-a-directory", "write-fails") and not (use_o or use_e):
+            continue
+        if loc in ("o-bad-e-good", "o-good-e-bad") and not (use_o and use_e):
             continue
         if loc == "write-fails" and not os.path.exists("/dev/full"):
             continue
@@ -94,7 +96,7 @@ def run(res):
             open(os.path.join(d, "src", fn), "w").write(content)
         open(os.path.join(d, "src", "bystander.hex"), "w").write("keep me\n")
         args = ["-s", src if how in ("absolute", "symlink") else os.path.relpath(src, d)]
-        target = {"writable": "out/%s", "missing-dir": "nodir/%s", "is-a-directory": "out/%s", "overwrite": "out/%s", "write-fails": "out/%s"}[loc]
+        target = {"writable": "out/%s", "missing-dir": "nodir/%s", "is-a-directory": "out/%s", "overwrite": "out/%s", "write-fails": "out/%s", "o-bad-e-good": "out/%s", "o-good-e-bad": "out/%s"}[loc]
         paths = {"code": os.path.join(d, "src", stem + ".hex"), "eeprom": os.path.join(d, "src", stem + ".eep.hex")}
         # output names as given: absolute, or relative to the WORKING directory (not to the source); plain, with blanks, with
         # non-ASCII characters, and with bytes that are no valid UTF-8 (file names are byte strings)
@@ -110,9 +112,13 @@ def run(res):
             return full.decode("utf-8", "surrogateescape"), arg
         if use_o:
             paths["code"], a = given(oname)
+            if loc == "o-bad-e-good":
+                paths["code"] = a = os.path.join(d, "nodir", "flash.hex")
             args += ["-o", a]
         if use_e:
             paths["eeprom"], a = given(ename)
+            if loc == "o-good-e-bad":
+                paths["eeprom"] = a = os.path.join(d, "nodir", "ee.hex")
             args += ["-e", a]
         if loc == "is-a-directory":
             for k, u in (("code", use_o), ("eeprom", use_e)):
@@ -145,7 +151,9 @@ def run(res):
             for k in ("code", "eeprom"):
                 img = bytes.fromhex(l[k])
                 if img:
-                    if c["location"].split("/")[0] in ("missing-dir", "is-a-directory", "write-fails") and c["redirected"][k]:
+                    l0 = c["location"].split("/")[0]
+                    if (l0 in ("missing-dir", "is-a-directory", "write-fails") and c["redirected"][k]) or (l0 == "o-bad-e-good" and k == "code") or \
+                            (l0 == "o-good-e-bad" and k == "eeprom"):
                         unwritable = True
                     else:
                         want[c["paths"][k]] = img
